@@ -1371,11 +1371,135 @@ fn sync_session_family(ctx: &Ctx, report: &mut Report, only: Option<&Value>) -> 
     Ok(())
 }
 
+// ---------------------------------------------------------------------------------------
+// (E) request handlers: every request message of the relay, sync and block-filter protocols with
+// boundary and extreme field values, and every 4-byte word of each replaced by boundary values,
+// through the production `received` of the real handlers on a real node.  A request can be refused
+// (or the peer banned); the handler must not panic.
+fn request_family(ctx: &Ctx, report: &mut Report, only: Option<&Value>) -> Result<(), String> {
+    use ckb_network::CKBProtocolHandler;
+    let mut w = SessionWorld::new(ctx, "c16-req")?;
+    w.reset(&[0, 1])?;
+    let b3 = w.fresh_block()?;
+    w.node.process(&b3).map_err(|e| format!("block 3: {e}"))?;
+    w.node.wait_pool_synced()?;
+    // block filters exist for the filter protocol to serve
+    ckb_block_filter::filter::BlockFilter::new(w.node.shared.clone()).verif_build_once();
+    let genesis = w.cons.genesis_hash();
+    let unknown = packed::Byte32::new([0xabu8; 32]);
+    let hashes = [b3.hash(), w.b2.clone(), genesis.clone(), unknown.clone()];
+    let (_tx, rx) = ckb_channel::bounded(1);
+    let sync_shared = Arc::new(SyncShared::new(w.node.shared.clone(), Default::default(), rx));
+    let mut relayer = Relayer::new(w.node.chain().clone(), Arc::clone(&sync_shared));
+    let mut sync = ckb_sync::Synchronizer::new(w.node.chain().clone(), Arc::clone(&sync_shared));
+    let mut filter = ckb_sync::BlockFilter::new(Arc::clone(&sync_shared));
+    let nc = Arc::new(MockNc { sent: Default::default(), banned: Default::default() });
+    let handle = w.node.shared.async_handle().clone();
+    // (protocol, name, bytes)
+    let mut msgs: Vec<(u8, String, Bytes)> = vec![];
+    let ids: Vec<packed::ProposalShortId> = w.txs.iter().map(|t| t.proposal_short_id()).collect();
+    for (hi, h) in hashes.iter().enumerate() {
+        for (ii, idx) in [vec![], vec![0u32], vec![1, 2], vec![u32::MAX], vec![3, 3], vec![4]].iter().enumerate() {
+            for (ui, uidx) in [vec![], vec![0u32], vec![u32::MAX]].iter().enumerate() {
+                msgs.push((0, format!("GetBlockTransactions(block {hi}, indexes #{ii}, uncle indexes #{ui})"), relay_bytes(packed::GetBlockTransactions::new_builder().block_hash(h.clone()).indexes(packed::Uint32Vec::new_builder().set(idx.iter().map(|i| Pack::<packed::Uint32>::pack(i)).collect()).build()).uncle_indexes(packed::Uint32Vec::new_builder().set(uidx.iter().map(|i| Pack::<packed::Uint32>::pack(i)).collect()).build()).build())));
+            }
+        }
+        for (pi, props) in [vec![], vec![ids[0].clone()], vec![ids[0].clone(), ids[0].clone()], (0..3001u32).map(|i| { let mut x = [0u8; 10]; x[..4].copy_from_slice(&i.to_le_bytes()); packed::ProposalShortId::new(x) }).collect::<Vec<_>>()].iter().enumerate() {
+            msgs.push((0, format!("GetBlockProposal(block {hi}, proposals #{pi})"), relay_bytes(packed::GetBlockProposal::new_builder().block_hash(h.clone()).proposals(props.clone().pack()).build())));
+        }
+    }
+    for (ti, hs) in [vec![], vec![w.txs[0].hash()], vec![unknown.clone()], vec![w.txs[0].hash(), w.txs[0].hash()], (0..40_000u32).map(|i| { let mut x = [0u8; 32]; x[..4].copy_from_slice(&i.to_le_bytes()); packed::Byte32::new(x) }).collect::<Vec<_>>()].iter().enumerate() {
+        msgs.push((0, format!("GetRelayTransactions(hashes #{ti})"), relay_bytes(packed::GetRelayTransactions::new_builder().tx_hashes(hs.clone().pack()).build())));
+        msgs.push((0, format!("RelayTransactionHashes(hashes #{ti})"), relay_bytes(packed::RelayTransactionHashes::new_builder().tx_hashes(hs.clone().pack()).build())));
+        msgs.push((1, format!("GetBlocks(hashes #{ti})"), sync_bytes(packed::GetBlocks::new_builder().block_hashes(hs.clone().pack()).build())));
+    }
+    for (si, stop) in [packed::Byte32::zero(), b3.hash()].iter().enumerate() {
+        for (li, loc) in [vec![], vec![w.b2.clone()], vec![genesis.clone()], vec![unknown.clone()], vec![b3.hash(), w.b2.clone(), genesis.clone()], vec![genesis.clone(), b3.hash()], vec![unknown.clone(); 200]].iter().enumerate() {
+            msgs.push((1, format!("GetHeaders(stop #{si}, locator #{li})"), sync_bytes(packed::GetHeaders::new_builder().hash_stop(stop.clone()).block_locator_hashes(loc.clone().pack()).build())));
+        }
+    }
+    for hs in [vec![b3.hash()], vec![b3.hash(); 40], vec![genesis.clone(), b3.hash(), unknown.clone()]] {
+        msgs.push((1, format!("GetBlocks({} hashes)", hs.len()), sync_bytes(packed::GetBlocks::new_builder().block_hashes(hs.pack()).build())));
+    }
+    for start in [0u64, 1, 2, 3, 4, 100, u64::MAX - 2000, u64::MAX - 1, u64::MAX] {
+        let f = |item: packed::BlockFilterMessageUnion| packed::BlockFilterMessage::new_builder().set(item).build().as_bytes();
+        msgs.push((2, format!("GetBlockFilters(start {start})"), f(packed::GetBlockFilters::new_builder().start_number(start).build().into())));
+        msgs.push((2, format!("GetBlockFilterHashes(start {start})"), f(packed::GetBlockFilterHashes::new_builder().start_number(start).build().into())));
+        msgs.push((2, format!("GetBlockFilterCheckPoints(start {start})"), f(packed::GetBlockFilterCheckPoints::new_builder().start_number(start).build().into())));
+    }
+    // every 4-byte word of every (small) seed replaced by boundary values
+    let seeds: Vec<(u8, String, Bytes)> = msgs.iter().filter(|m| m.2.len() <= 400).cloned().collect();
+    for (proto, name, data) in seeds {
+        for off in (0..data.len().saturating_sub(3)).step_by(4) {
+            for v in [0u32, 1, 0x7fff_ffff, 0xffff_ffff, data.len() as u32, data.len() as u32 + 1] {
+                let mut m = data.to_vec();
+                if m[off..off + 4] == v.to_le_bytes() {
+                    continue;
+                }
+                m[off..off + 4].copy_from_slice(&v.to_le_bytes());
+                msgs.push((proto, format!("{name} with bytes {off}..{} = {v:#x}", off + 4), Bytes::from(m)));
+            }
+        }
+    }
+    report.count("request_messages", msgs.len() as u64);
+    let label = json!({"family": "requests"});
+    let mut replies = 0u64;
+    let mut peer_no = 10usize;
+    for (k, (proto, name, data)) in msgs.iter().enumerate() {
+        if let Some(v) = only {
+            if v["message"].as_str() != Some(name.as_str()) {
+                continue;
+            }
+        } else if !ctx.mine(k as u64) {
+            // (the world is per worker; the messages are split)
+            continue;
+        }
+        if ctx.out_of_time() {
+            report.cap_hit = Some("request family: wall budget".into());
+            break;
+        }
+        // a fresh peer per message: the relayer's per-peer rate limiter uses real time
+        peer_no += 1;
+        let peer: ckb_network::PeerIndex = peer_no.into();
+        let before = nc.sent.lock().unwrap().len();
+        let nc2: Arc<dyn ckb_network::CKBProtocolContext + Sync> = nc.clone();
+        let res = std::panic::catch_unwind(std::panic::AssertUnwindSafe(|| match proto {
+            0 => handle.block_on(relayer.received(nc2, peer, data.clone())),
+            1 => handle.block_on(sync.received(nc2, peer, data.clone())),
+            _ => handle.block_on(filter.received(nc2, peer, data.clone())),
+        }));
+        report.evaluations += 1;
+        if res.is_err() {
+            report.violation(format!("request-panic/{}", ["relay", "sync", "block-filter"][*proto as usize]), format!("{}::received panicked on {name} ({} bytes)", ["Relayer", "Synchronizer", "BlockFilter"][*proto as usize], data.len()), json!({"family": "requests", "message": name}));
+            // the handler may hold poisoned state: rebuild it
+            relayer = Relayer::new(w.node.chain().clone(), Arc::clone(&sync_shared));
+            sync = ckb_sync::Synchronizer::new(w.node.chain().clone(), Arc::clone(&sync_shared));
+            filter = ckb_sync::BlockFilter::new(Arc::clone(&sync_shared));
+        }
+        let mut sent = nc.sent.lock().unwrap();
+        if sent.len() > before {
+            replies += 1;
+            report.nontrivial.insert(fp(&("request", name)));
+        }
+        sent.clear();
+        report.outcomes.insert(fp(&("request", proto, res.is_ok(), !nc.banned.lock().unwrap().is_empty())));
+        nc.banned.lock().unwrap().clear();
+    }
+    let _ = label;
+    report.count("request_messages_answered", replies);
+    drop(relayer);
+    drop(sync);
+    drop(filter);
+    drop(sync_shared);
+    w.node.service_barrier()?;
+    Ok(())
+}
+
 pub fn meta(tier: Tier) -> Meta {
     Meta {
         id: "C16",
         level: "exploration",
-        rule: "decode: all 65 793 byte strings of length 0..=2 into each of the four protocol readers and into decompress; for each of 27 seed messages (one per union arm, small and large) every truncation, every single-byte substitution from {00,01,7f,80,ff,b-1,b+1}, every aligned 4-byte word replaced by {0,1,len-1,len,len+1,7fffffff,ffffffff}, every bit flip (seeds <= 256 B), raw and on the compressed frame; each decoded value is walked (all accessors, view conversion, hashes, Display, BlockVerifier, NonContextualTransactionVerifier, CompactBlockVerifier, BlockTransactions/UnclesVerifier) under catch_unwind. reconstruct: real Relayer::reconstruct_block on a real pool for every prefilled subset containing the cellbase (8) x pool availability subset (8) x peer-supplied subset incl. a foreign tx (16) x tampering {none, short id replaced (2 positions), proposals changed, extension changed/removed}; structure: all prefilled index sequences (len 0..3 over {0,1,2,3,4,7}) x 7 short-id lists through CompactBlockVerifier then reconstruct_block; uncles: asked index subsets of {0,1} x answer sequences (len 0..3 over {U0,U1,foreign}) through BlockUnclesVerifier then reconstruct_block; uncles-mixed: every list of 2..3 uncles over {two locally stored real blocks, two unknown}, the missing indexes the first reconstruction reports, every answer of length 0..2 over {the unknown ones, a foreign one}, BlockUnclesVerifier, second reconstruction. non-trivial = a mutant that decodes / a reconstruction that returns the block.",
+        rule: "(E) request handlers: every request message of the relay, sync and block-filter protocols (GetBlockTransactions over known / unknown blocks x index lists incl. out-of-range and u32::MAX x uncle index lists; GetBlockProposal with 0 / 1 / duplicate / 3001 ids; GetRelayTransactions, RelayTransactionHashes, GetBlocks with empty / known / unknown / duplicate / 40 000 hashes; GetHeaders over 2 stop hashes x 7 locators incl. unordered and 200 unknown entries; GetBlockFilters / Hashes / CheckPoints from 0, 1, 2, 3, 4, 100, u64::MAX-2000, u64::MAX-1, u64::MAX) and every 4-byte word of each of them replaced by 0, 1, 0x7fffffff, 0xffffffff, len, len+1, through the production received() of the real Relayer, Synchronizer and BlockFilter on a real node (a fresh peer per message): no handler panics. decode: all 65 793 byte strings of length 0..=2 into each of the four protocol readers and into decompress; for each of 27 seed messages (one per union arm, small and large) every truncation, every single-byte substitution from {00,01,7f,80,ff,b-1,b+1}, every aligned 4-byte word replaced by {0,1,len-1,len,len+1,7fffffff,ffffffff}, every bit flip (seeds <= 256 B), raw and on the compressed frame; each decoded value is walked (all accessors, view conversion, hashes, Display, BlockVerifier, NonContextualTransactionVerifier, CompactBlockVerifier, BlockTransactions/UnclesVerifier) under catch_unwind. reconstruct: real Relayer::reconstruct_block on a real pool for every prefilled subset containing the cellbase (8) x pool availability subset (8) x peer-supplied subset incl. a foreign tx (16) x tampering {none, short id replaced (2 positions), proposals changed, extension changed/removed}; structure: all prefilled index sequences (len 0..3 over {0,1,2,3,4,7}) x 7 short-id lists through CompactBlockVerifier then reconstruct_block; uncles: asked index subsets of {0,1} x answer sequences (len 0..3 over {U0,U1,foreign}) through BlockUnclesVerifier then reconstruct_block; uncles-mixed: every list of 2..3 uncles over {two locally stored real blocks, two unknown}, the missing indexes the first reconstruction reports, every answer of length 0..2 over {the unknown ones, a foreign one}, BlockUnclesVerifier, second reconstruction. non-trivial = a mutant that decodes / a reconstruction that returns the block.",
         assumptions: &["only compact blocks accepted by CompactBlockVerifier are reconstructed (production order)", "byte strings further than one mutation from a seed or longer than 2 bytes are not enumerated"],
         bounds: json!({"seed_size_cap_quick": 700, "tier": tier.as_str()}),
     }
@@ -1405,6 +1529,11 @@ pub fn run(ctx: &Ctx) -> Report {
     if fam.is_none() || fam.as_deref() == Some("sync-session") {
         if let Err(e) = sync_session_family(ctx, &mut report, v.as_ref().filter(|_| fam.is_some())) {
             report.machinery_errors.push(format!("sync session family: {e}"));
+        }
+    }
+    if fam.is_none() || fam.as_deref() == Some("requests") {
+        if let Err(e) = request_family(ctx, &mut report, v.as_ref().filter(|_| fam.is_some())) {
+            report.machinery_errors.push(format!("request family: {e}"));
         }
     }
     if fam.is_none() || fam.as_deref() == Some("session") {
